@@ -5,7 +5,8 @@ A proof is a list of `Drcp.Step`s over literal codes; `lits` maps a positive cod
 predicate (negative codes denote the negation). The checker accepts
 
 * an inference step tagged `t` iff `premises → conclusion` (conclusion absent = false) follows
-  from constraint number `t` of the model alone, within the declared domains (`checkInference`);
+  from constraint number `t` of the model alone, within the declared domains and given the
+  definitions of the literal variables (`checkInferenceD`; the first `nd` constraints of the model);
 * an untagged inference iff it follows from some single constraint of the model together with the
   unit nogoods derived so far (the solver stores a posted clause simplified by the root facts), or
   by domain-aware RUP from the live nogoods, or — when an objective is given — it is an
@@ -103,7 +104,17 @@ theorem usable_sub (st : St) (hints : Option (List Nat)) :
     · exact List.mem_append_left _ (List.of_mem_zip he).2
     · exact List.mem_append_right _ (List.mem_map.2 ⟨e, he, rfl⟩)
 
-def stepCheck (m : Model) (lits : List (Nat × Atom)) (obj : Obj) (st : St) : Step → Option St
+/-- The first `nd` constraints of the model are *definitions* of literal variables (`r ↔ p`, posted by
+the solver itself when the literal is created with `new_literal_for_predicate`); the proof writes
+`p` wherever `r` is meant, so inferences are judged given the definitions. -/
+def defsOf (m : Model) (nd : Nat) : List Cons := m.cons.take nd
+
+theorem defsOf_sub (m : Model) (nd : Nat) : ∀ d ∈ defsOf m nd, d ∈ m.cons :=
+  fun _ hd => List.mem_of_mem_take hd
+
+theorem defsOf_zero (m : Model) : defsOf m 0 = [] := by simp [defsOf]
+
+def stepCheck (m : Model) (nd : Nat) (lits : List (Nat × Atom)) (obj : Obj) (st : St) : Step → Option St
   | .inference id prem prop tag _ => do
     let premA ← atomsOfCodes lits prem
     let conclA ← (match prop with
@@ -115,12 +126,12 @@ def stepCheck (m : Model) (lits : List (Nat × Atom)) (obj : Obj) (st : St) : St
     | some t =>
       match m.cons[t - 1]? with
       | some c =>
-        if t ≠ 0 && checkInference m.doms c premA conclA then some { st with window := clause :: st.window, windowIds := id :: st.windowIds } else none
+        if t ≠ 0 && checkInferenceD m.doms (defsOf m nd) c premA conclA then some { st with window := clause :: st.window, windowIds := id :: st.windowIds } else none
       | none => none
     | none =>
       -- an untagged inference may come from a posted clause, which the solver stores simplified by
       -- the root facts: it has to follow from one constraint together with the unit nogoods so far
-      if m.cons.any (fun c => checkInference m.doms c (premA ++ unitFacts st) conclA) then
+      if m.cons.any (fun c => checkInferenceD m.doms (defsOf m nd) c (premA ++ unitFacts st) conclA) then
         some { st with window := clause :: st.window, windowIds := id :: st.windowIds }
       else if rup m.doms (liveClauses st) clause then
         some { st with window := clause :: st.window, windowIds := id :: st.windowIds }
@@ -139,11 +150,11 @@ def stepCheck (m : Model) (lits : List (Nat × Atom)) (obj : Obj) (st : St) : St
   | .unsat => some st
   | .optimal _ => some st
 
-def runSteps (m : Model) (lits : List (Nat × Atom)) (obj : Obj) : St → List Step → Option St
+def runSteps (m : Model) (nd : Nat) (lits : List (Nat × Atom)) (obj : Obj) : St → List Step → Option St
   | st, [] => some st
   | st, s :: rest =>
-    match stepCheck m lits obj st s with
-    | some st' => runSteps m lits obj st' rest
+    match stepCheck m nd lits obj st s with
+    | some st' => runSteps m nd lits obj st' rest
     | none => none
 
 inductive Verdict
@@ -174,8 +185,8 @@ theorem concludeWithoutRefutation_ne (lits : List (Nat × Atom)) (obj : Obj) (la
     split <;> (try split) <;> (try split) <;> simp
 
 /-- the conclusion is the last step -/
-def checkDrcp (m : Model) (lits : List (Nat × Atom)) (obj : Obj) (steps : List Step) : Verdict :=
-  match runSteps m lits obj {} steps with
+def checkDrcp (m : Model) (nd : Nat) (lits : List (Nat × Atom)) (obj : Obj) (steps : List Step) : Verdict :=
+  match runSteps m nd lits obj {} steps with
   | none => .rejected
   | some st =>
     if !st.sawEmpty then concludeWithoutRefutation lits obj steps.getLast?
@@ -242,8 +253,15 @@ theorem inferenceClause_holds (prem : List Atom) (concl : Option Atom) (a : List
     | none => exact this.elim
     | some q => simp [this]
 
-theorem checkInference_clause {m : Model} {obj : Obj} {axs : List Int} (c : Cons) (hc : c ∈ m.cons)
-    (prem : List Atom) (concl : Option Atom) (h : checkInference m.doms c prem concl = true)
+theorem good_defs {m : Model} {obj : Obj} {axs : List Int} {a : List Int} (ha : Good m obj axs a) (nd : Nat) :
+    ∀ d ∈ defsOf m nd, d.sat a = true := by
+  intro d hd
+  have := ha.1
+  simp only [Model.sat, Bool.and_eq_true, List.all_eq_true] at this
+  exact this.2 d (defsOf_sub m nd d hd)
+
+theorem checkInference_clause {m : Model} {obj : Obj} {axs : List Int} (nd : Nat) (c : Cons) (hc : c ∈ m.cons)
+    (prem : List Atom) (concl : Option Atom) (h : checkInferenceD m.doms (defsOf m nd) c prem concl = true)
     (a : List Int) (ha : Good m obj axs a) : (inferenceClause prem concl).any (·.holds a) = true := by
   apply inferenceClause_holds
   intro hp
@@ -251,7 +269,7 @@ theorem checkInference_clause {m : Model} {obj : Obj} {axs : List Int} (c : Cons
     have := ha.1
     simp only [Model.sat, Bool.and_eq_true, List.all_eq_true] at this
     exact this.2 c hc
-  exact (checkInference_iff m.doms c prem concl).1 h a (good_inDoms ha) hsat hp
+  exact (checkInferenceD_iff m.doms _ c prem concl).1 h a (good_inDoms ha) (good_defs ha nd) hsat hp
 
 theorem unitFacts_hold {m : Model} {obj : Obj} {axs : List Int} {st : St} (hinv : Inv m obj axs st)
     (a : List Int) (ha : Good m obj axs a) : ∀ q ∈ unitFacts st, q.holds a = true := by
@@ -268,8 +286,8 @@ theorem unitFacts_hold {m : Model} {obj : Obj} {axs : List Int} {st : St} (hinv 
   · cases hcl
 
 theorem checkInference_clause_units {m : Model} {obj : Obj} {axs : List Int} {st : St} (hinv : Inv m obj axs st)
-    (c : Cons) (hc : c ∈ m.cons)
-    (prem : List Atom) (concl : Option Atom) (h : checkInference m.doms c (prem ++ unitFacts st) concl = true)
+    (nd : Nat) (c : Cons) (hc : c ∈ m.cons)
+    (prem : List Atom) (concl : Option Atom) (h : checkInferenceD m.doms (defsOf m nd) c (prem ++ unitFacts st) concl = true)
     (a : List Int) (ha : Good m obj axs a) : (inferenceClause prem concl).any (·.holds a) = true := by
   apply inferenceClause_holds
   intro hp
@@ -277,7 +295,7 @@ theorem checkInference_clause_units {m : Model} {obj : Obj} {axs : List Int} {st
     have := ha.1
     simp only [Model.sat, Bool.and_eq_true, List.all_eq_true] at this
     exact this.2 c hc
-  refine (checkInference_iff m.doms c _ concl).1 h a (good_inDoms ha) hsat ?_
+  refine (checkInferenceD_iff m.doms _ c _ concl).1 h a (good_inDoms ha) (good_defs ha nd) hsat ?_
   intro p hp'
   rcases List.mem_append.1 hp' with h1 | h1
   · exact hp p h1
@@ -382,8 +400,8 @@ theorem axiomOf_clause {m : Model} {obj : Obj} {axs : List Int} (prem : List Ato
       simp only [inferenceClause, List.map_nil, List.nil_append] at this
       simp only [inferenceClause, List.any_append, this, Bool.or_true]
 
-theorem stepCheck_axioms_mono (m : Model) (lits : List (Nat × Atom)) (obj : Obj) (st st' : St) (s : Step)
-    (h : stepCheck m lits obj st s = some st') : ∀ v ∈ st.axioms, v ∈ st'.axioms := by
+theorem stepCheck_axioms_mono (m : Model) (nd : Nat) (lits : List (Nat × Atom)) (obj : Obj) (st st' : St) (s : Step)
+    (h : stepCheck m nd lits obj st s = some st') : ∀ v ∈ st.axioms, v ∈ st'.axioms := by
   intro v hv
   cases s with
   | deletion id => simp only [stepCheck, Option.some.injEq] at h; subst h; exact hv
@@ -432,8 +450,8 @@ theorem stepCheck_axioms_mono (m : Model) (lits : List (Nat × Atom)) (obj : Obj
                 · simp only [Option.some.injEq] at h; subst h; exact List.mem_cons_of_mem _ hv
                 · cases h
 
-theorem stepCheck_inv (m : Model) (lits : List (Nat × Atom)) (obj : Obj) (axs : List Int) (st st' : St)
-    (s : Step) (h : stepCheck m lits obj st s = some st') (hax : ∀ v ∈ st'.axioms, v ∈ axs)
+theorem stepCheck_inv (m : Model) (nd : Nat) (lits : List (Nat × Atom)) (obj : Obj) (axs : List Int) (st st' : St)
+    (s : Step) (h : stepCheck m nd lits obj st s = some st') (hax : ∀ v ∈ st'.axioms, v ∈ axs)
     (hinv : Inv m obj axs st) : Inv m obj axs st' := by
   cases s with
   | unsat => simp only [stepCheck, Option.some.injEq] at h; subst h; exact hinv
@@ -513,9 +531,9 @@ theorem stepCheck_inv (m : Model) (lits : List (Nat × Atom)) (obj : Obj) (axs :
                 simp only [Option.some.injEq] at h
                 subst h
                 have hmem : c ∈ m.cons := List.mem_of_getElem? hcget
-                have hchk' : checkInference m.doms c premA conclA = true := by
+                have hchk' : checkInferenceD m.doms (defsOf m nd) c premA conclA = true := by
                   simp only [Bool.and_eq_true] at hchk; exact hchk.2
-                exact key st.axioms (fun a ha => checkInference_clause c hmem premA conclA hchk' a ha) hinv.1
+                exact key st.axioms (fun a ha => checkInference_clause nd c hmem premA conclA hchk' a ha) hinv.1
               · cases h
             · cases h
           | none =>
@@ -525,7 +543,7 @@ theorem stepCheck_inv (m : Model) (lits : List (Nat × Atom)) (obj : Obj) (axs :
               simp only [Option.some.injEq] at h
               subst h
               obtain ⟨c, hmem, hchk⟩ := List.any_eq_true.1 hany
-              exact key st.axioms (fun a ha => checkInference_clause_units hinv c hmem premA conclA hchk a ha) hinv.1
+              exact key st.axioms (fun a ha => checkInference_clause_units hinv nd c hmem premA conclA hchk a ha) hinv.1
             · split at h
               · rename_i hrup
                 simp only [Option.some.injEq] at h
@@ -544,14 +562,14 @@ theorem stepCheck_inv (m : Model) (lits : List (Nat × Atom)) (obj : Obj) (axs :
                     (fun w hw => hax w hw)
                 · cases h
 
-theorem runSteps_inv (m : Model) (lits : List (Nat × Atom)) (obj : Obj) (axs : List Int)
-    (steps : List Step) (st stf : St) (h : runSteps m lits obj st steps = some stf)
+theorem runSteps_inv (m : Model) (nd : Nat) (lits : List (Nat × Atom)) (obj : Obj) (axs : List Int)
+    (steps : List Step) (st stf : St) (h : runSteps m nd lits obj st steps = some stf)
     (hax : ∀ v ∈ stf.axioms, v ∈ axs) (hinv : Inv m obj axs st) : Inv m obj axs stf := by
   induction steps generalizing st with
   | nil => simp only [runSteps, Option.some.injEq] at h; subst h; exact hinv
   | cons s rest ih =>
     simp only [runSteps] at h
-    cases hs : stepCheck m lits obj st s with
+    cases hs : stepCheck m nd lits obj st s with
     | none => simp [hs] at h
     | some st' =>
       simp only [hs] at h
@@ -562,22 +580,22 @@ theorem runSteps_inv (m : Model) (lits : List (Nat × Atom)) (obj : Obj) (axs : 
         | nil => simp only [runSteps, Option.some.injEq] at h; subst h; exact fun v hv => hv
         | cons s2 rest2 ih2 =>
           simp only [runSteps] at h
-          cases hs2 : stepCheck m lits obj st' s2 with
+          cases hs2 : stepCheck m nd lits obj st' s2 with
           | none => simp [hs2] at h
           | some st2 =>
             simp only [hs2] at h
             intro v hv
-            exact ih2 st2 h v (stepCheck_axioms_mono m lits obj st' st2 s2 hs2 v hv)
-      exact ih st' h (stepCheck_inv m lits obj axs st st' s hs (fun v hv => hax v (hmono v hv)) hinv)
+            exact ih2 st2 h v (stepCheck_axioms_mono m nd lits obj st' st2 s2 hs2 v hv)
+      exact ih st' h (stepCheck_inv m nd lits obj axs st st' s hs (fun v hv => hax v (hmono v hv)) hinv)
 
 theorem inv_init (m : Model) (obj : Obj) (axs : List Int) : Inv m obj axs {} := by
   refine ⟨by intro v hv; simp at hv, by intro c hc; simp at hc, by intro e he; simp at he, by intro h; simp at h⟩
 
 /-- **An accepted UNSAT certificate: the model has no solution.** -/
-theorem checkDrcp_unsat_sound (m : Model) (lits : List (Nat × Atom)) (obj : Obj) (steps : List Step)
-    (h : checkDrcp m lits obj steps = .unsat) : ∀ a, m.sat a = false := by
+theorem checkDrcp_unsat_sound (m : Model) (nd : Nat) (lits : List (Nat × Atom)) (obj : Obj) (steps : List Step)
+    (h : checkDrcp m nd lits obj steps = .unsat) : ∀ a, m.sat a = false := by
   unfold checkDrcp at h
-  cases hr : runSteps m lits obj {} steps with
+  cases hr : runSteps m nd lits obj {} steps with
   | none => simp [hr] at h
   | some st =>
     simp only [hr] at h
@@ -592,7 +610,7 @@ theorem checkDrcp_unsat_sound (m : Model) (lits : List (Nat × Atom)) (obj : Obj
           simp only at h
           by_cases hax : st.axioms.isEmpty = true
           · have haxs : st.axioms = [] := by simpa using hax
-            have hinv := runSteps_inv m lits obj [] steps {} st hr (by rw [haxs]; intro v hv; cases hv)
+            have hinv := runSteps_inv m nd lits obj [] steps {} st hr (by rw [haxs]; intro v hv; cases hv)
               (inv_init m obj [])
             intro a
             cases hs : m.sat a with
@@ -651,11 +669,11 @@ theorem foldl_min_mem (v : Int) (vs : List Int) : vs.foldl min v ∈ v :: vs := 
     · right; right; exact h
 
 /-- **An accepted optimality certificate (minimisation): no solution is below the concluded bound.** -/
-theorem checkDrcp_bound_sound_min (m : Model) (lits : List (Nat × Atom)) (x : Nat) (steps : List Step)
-    (b : Int) (h : checkDrcp m lits (.minimise x) steps = .bound b) :
+theorem checkDrcp_bound_sound_min (m : Model) (nd : Nat) (lits : List (Nat × Atom)) (x : Nat) (steps : List Step)
+    (b : Int) (h : checkDrcp m nd lits (.minimise x) steps = .bound b) :
     ∀ a, m.sat a = true → b ≤ val a x := by
   unfold checkDrcp at h
-  cases hr : runSteps m lits (.minimise x) {} steps with
+  cases hr : runSteps m nd lits (.minimise x) {} steps with
   | none => simp [hr] at h
   | some st =>
     simp only [hr] at h
@@ -677,7 +695,7 @@ theorem checkDrcp_bound_sound_min (m : Model) (lits : List (Nat × Atom)) (x : N
               simp only [hq, hax] at h
               split at h
               · simp only [Verdict.bound.injEq] at h
-                have hinv := runSteps_inv m lits (.minimise x) (v :: vs) steps {} st hr
+                have hinv := runSteps_inv m nd lits (.minimise x) (v :: vs) steps {} st hr
                   (by rw [hax]; exact fun w hw => hw) (inv_init m _ _)
                 intro a ha
                 -- if `a` were at or below the strongest axiom it would satisfy all of them
@@ -700,11 +718,11 @@ theorem checkDrcp_bound_sound_min (m : Model) (lits : List (Nat × Atom)) (x : N
       exact absurd h ((concludeWithoutRefutation_ne lits _ _).2 b)
 
 /-- … and for maximisation: no solution is above the concluded bound. -/
-theorem checkDrcp_bound_sound_max (m : Model) (lits : List (Nat × Atom)) (x : Nat) (steps : List Step)
-    (b : Int) (h : checkDrcp m lits (.maximise x) steps = .bound b) :
+theorem checkDrcp_bound_sound_max (m : Model) (nd : Nat) (lits : List (Nat × Atom)) (x : Nat) (steps : List Step)
+    (b : Int) (h : checkDrcp m nd lits (.maximise x) steps = .bound b) :
     ∀ a, m.sat a = true → val a x ≤ b := by
   unfold checkDrcp at h
-  cases hr : runSteps m lits (.maximise x) {} steps with
+  cases hr : runSteps m nd lits (.maximise x) {} steps with
   | none => simp [hr] at h
   | some st =>
     simp only [hr] at h
@@ -726,7 +744,7 @@ theorem checkDrcp_bound_sound_max (m : Model) (lits : List (Nat × Atom)) (x : N
               simp only [hq, hax] at h
               split at h
               · simp only [Verdict.bound.injEq] at h
-                have hinv := runSteps_inv m lits (.maximise x) (v :: vs) steps {} st hr
+                have hinv := runSteps_inv m nd lits (.maximise x) (v :: vs) steps {} st hr
                   (by rw [hax]; exact fun w hw => hw) (inv_init m _ _)
                 intro a ha
                 have hmax := foldl_max_ge v vs
